@@ -78,11 +78,11 @@ ITERATION_JOBS_Q = [
 ]
 ITERATION_JOBS_T = [
     S("h_iteration", it(0, N=3, d=2, fk=5), ["iteration.sum_is_sum"], tiers=T),
-    S("h_iteration", it(0, N=2, d=1, fk=5, dist=5), ["iteration.sum_is_sum"], tiers=T),
-    S("h_iteration", it(1, N=3, d=1, B=2, fk=5), ["vegas.adjustment_data_is_per_bin"], tiers=T),
+    S("h_iteration", it(0, N=2, d=1, fk=5, dist=5), ["iteration.sum_is_sum"], tiers=T, split=8),
+    S("h_iteration", it(1, N=3, d=1, B=2, fk=5), ["vegas.adjustment_data_is_per_bin"], tiers=T, split=8),
     S("h_iteration", it(1, N=2, d=2, B=2, fk=5), ["vegas.adjustment_data_is_per_bin"], tiers=T),
     S("h_iteration", it(1, N=2, d=1, B=4, fk=2), ["vegas.adjustment_data_is_per_bin"], tiers=T),
-    S("h_iteration", it(2, N=2, d=1, C=2, fk=5, jk=5, pz=1), ["multi_channel.adjustment_data_is_per_channel"], tiers=T),
+    S("h_iteration", it(2, N=2, d=1, C=2, fk=5, jk=5, pz=1), ["multi_channel.adjustment_data_is_per_channel"], tiers=T, split=16),
     S("h_iteration", it(2, N=2, d=1, C=3, fk=2, jk=1, ask=1), ["multi_channel.call_protocol_order"], tiers=T),
     S("h_iteration", it(2, N=1, d=1, C=4, fk=5, jk=1), ["multi_channel.call_protocol_order"], tiers=T),
 ]
@@ -106,7 +106,6 @@ KERNEL_Q = [
     S("h_mc_kernels", dict(ob=3, C=3, user=0), ["initial.uniform_default"]),
 ]
 KERNEL_T = [
-    S("h_mc_kernels", dict(ob=0, C=4), ["refine_weights.sum_to_one"], tiers=T),
     S("h_mc_kernels", dict(ob=1, C=5, closed=1), ["select.never_a_disabled"], tiers=T),
     S("h_mc_kernels", dict(ob=2, C=4), ["point.weight_is_jacobian"], tiers=T),
     S("h_mc_kernels", dict(ob=3, C=4, user=1), ["initial.normalised_user_weights"], tiers=T),
@@ -133,7 +132,7 @@ PLAN["C08"] = dict(
     functions=["hep::multi_channel_refine_weights<T>", "hep::multi_channel_chkpt<T>::multi_channel_chkpt", "hep::multi_channel_chkpt<T>::channels",
                "hep::multi_channel_chkpt<T>::channel_weights"],
     bounds={"quick": "channels C<=3, every zero pattern of weights and data, weights in (0,1e6], data in (0,1e30], beta in (0,1], min in [0,1/C)",
-            "thorough": "C<=4"},
+            "thorough": "C<=3 for the refinement kernel (C=4: z3 gives no verdict on one query in 300 s), C<=4 for the initial weights"},
     outside="larger C; rounding", assumptions=COMMON_ASSUME,
     jobs=only(KERNEL_JOBS, lambda j: j["cfg"]["ob"] in (0, 3)),
 )
@@ -558,3 +557,20 @@ for _p in ("C03", "C05", "C10"):
     PLAN[_p]["functions"] = PLAN[_p]["functions"] + ["hep::chkpt_with_rng<E,C> with E = every standard engine (concrete engine, its own operator<< / >> / discard / ==)"]
 PLAN["C05"]["explanation"] = PLAN["C05"]["explanation"].replace("nor the std engines' own stream operators; hence", "the std engines run concretely "
     "(their own stream operators are exercised for the states a 2-3 iteration run reaches, not for all states); hence")
+
+RESUME_DIST2 = [S("h_driver", drv(0, 0, n=2, cp=1, dist=1, dist2=1, fk=1, name=_nm), ["resume.final_text_identical", "final_checkpoint.read_back"]) for _nm in (2, 3, 1)]
+RESUME_DIST2.append(S("h_driver", drv(0, 1, n=1, cp=1, dist=1, dist2=1, fk=1, name=2), ["final_checkpoint.read_back"]))
+PLAN["C03"]["jobs"] = PLAN["C03"]["jobs"] + RESUME_DIST2
+PLAN["C05"]["jobs"] = PLAN["C05"]["jobs"] + RESUME_DIST2
+DISTBIN_JOBS = [
+    S("h_iteration", it(2, N=1, d=1, C=2, fk=2, jk=5, pz=1, dist=1, dx=0), ["distribution.bins_stay_finite"]),
+    S("h_iteration", it(2, N=2, d=1, C=2, fk=2, jk=5, pz=1, dist=5, dx=0), ["distribution.bins_stay_finite"], tiers=T, split=8),
+]
+PLAN["C06"]["jobs"] = PLAN["C06"]["jobs"] + DISTBIN_JOBS
+PLAN["C11"]["jobs"] = PLAN["C11"]["jobs"] + DISTBIN_JOBS
+MPI_B3 = [S("h_mpi", mpi(0, 1, P=2, n=2, tc=0, fk=1, B=3), MPI_EQ), S("h_mpi", mpi(0, 1, P=3, n=2, tc=1, fk=1, B=3), MPI_EQ, tiers=T, split=12)]
+for _p in ("C04", "C19", "C07"):
+    PLAN[_p]["jobs"] = PLAN[_p]["jobs"] + MPI_B3
+PLAN["C20"]["jobs"] = PLAN["C20"]["jobs"] + [S("h_driver", drv(6, 0, n=1, cp=3, fk=2, unit=1), ["modes.decision_identical"]),
+                                             S("h_driver", drv(6, 1, n=1, cp=3, fk=2, unit=1), ["modes.decision_identical"]),
+                                             S("h_mpi", mpi(1, 0, P=2, n=2, tc=3, fk=2), ["mpi.stops_like_the_serial_run"], tiers=T, split=12, timeout_ms=600000)]
